@@ -73,9 +73,11 @@ Proof. induction m as [|kv m IH]; [reflexivity|]. cbn [existsb assoc_get]. exact
 (* one-step equations of the executor                                                       *)
 (* ====================================================================================== *)
 
-(* the text a text node writes, given the template whose options apply *)
-Definition html_text (entry : template) (owner : N) (val : str) (trimL trimR after before : bool) : str :=
-  let mine := tpl_id entry =? owner in
+(* the text a text node writes, given the frame whose chain of templates decides the options
+   (the last member's flags apply, to the nodes owned by any member: fix D42) *)
+Definition html_text (fr : frame) (owner : N) (val : str) (trimL trimR after before : bool) : str :=
+  let entry := last (f_chain fr) (Tpl 0 [] true [] [] [] None false false) in
+  let mine := existsb (fun t => tpl_id t =? owner) (f_chain fr) in
   let v1 := if mine && tpl_lstrip entry && before
             then rev (let fix dropws (l : str) := match l with
                                                   | b :: l' => if (b =? 9) || (b =? 32) then dropws l' else l
@@ -90,7 +92,7 @@ Definition html_text (entry : template) (owner : N) (val : str) (trimL trimR aft
   let v4 := if trimR then rev (dropl (rev v3)) else v3 in
   v4.
 
-Lemma html_text_plain : forall entry owner val, html_text entry owner val false false false false = val.
+Lemma html_text_plain : forall fr owner val, html_text fr owner val false false false false = val.
 Proof. intros. unfold html_text. rewrite !andb_false_r. reflexivity. Qed.
 
 Definition dflt_tpl : template := Tpl 0 [] true [] [] [] None false false.
@@ -114,7 +116,7 @@ Section ExecEqs.
   Lemma exec_node_S_html : forall f st owner val trimL trimR after before,
     exec_node se globals (S f) st (NHtml owner val trimL trimR after before) =
     match top_frame st with
-    | Ok fr => xok (html_text (last (f_chain fr) dflt_tpl) owner val trimL trimR after before) st
+    | Ok fr => xok (html_text fr owner val trimL trimR after before) st
     | other => xfail [] other
     end.
   Proof. reflexivity. Qed.
